@@ -47,6 +47,7 @@ try:
                 f.update(feats(x[2], x[3]))
             out.append(f)
         cur["last"] = (st, out)
+        cur["extra"] = [list(x) for x in sym.LAST_EXTRA]
         return st, det
     sym.compare_summaries = cmp
     orig = sym.reference_status
@@ -55,7 +56,7 @@ try:
         cur.pop("last", None)
         r = orig(ctx, f, tree, rn, ints, *a, **k)
         if r[0] != "same" and "last" in cur:
-            print(json.dumps({"seed": seed, "fn": rn, "status": r[0], "details": cur["last"][1]}))
+            print(json.dumps({"seed": seed, "fn": rn, "status": r[0], "details": cur["last"][1], "extra": cur.get("extra", [])}))
         return r
     modref.sym.reference_status = rs
     ob = modref.obligation(pid, getattr(mod, "INTS", None))
